@@ -51,7 +51,17 @@ pub fn docs() -> Vec<(String, String)> {
     let pkg = |name: &str, inner: &str| format!("<AR-PACKAGE><SHORT-NAME>{name}</SHORT-NAME>{inner}</AR-PACKAGE>");
     let sig = |name: &str| format!("<SYSTEM-SIGNAL><SHORT-NAME>{name}</SHORT-NAME></SYSTEM-SIGNAL>");
     let isig = |name: &str, r: &str| format!("<I-SIGNAL><SHORT-NAME>{name}</SHORT-NAME><SYSTEM-SIGNAL-REF DEST=\"SYSTEM-SIGNAL\">{r}</SYSTEM-SIGNAL-REF></I-SIGNAL>");
-    vec![
+    // the catalogue of the specification (spec/core/Arxml.tla LoadDocs, rendered by TLC) comes first; the documents below are
+    // used under their own names only where the catalogue has none of that name
+    let mut out: Vec<(String, String)> = vec![];
+    if let Ok(path) = std::env::var("VH_DOCS") {
+        if let Ok(Value::Object(m)) = serde_json::from_str::<Value>(&std::fs::read_to_string(path).unwrap_or_default()) {
+            for (k, v) in m {
+                out.push((k, v.as_str().unwrap_or("").to_string()));
+            }
+        }
+    }
+    let own = vec![
         ("ok_a".into(), doc("V50", &format!("<AR-PACKAGES>{}</AR-PACKAGES>", pkg("a", &format!("<ELEMENTS>{}{}</ELEMENTS>", sig("s"), isig("i", "/a/s")))))),
         ("ok_b".into(), doc("V50", &format!("<AR-PACKAGES>{}{}</AR-PACKAGES>", pkg("b", &format!("<ELEMENTS>{}</ELEMENTS>", sig("t"))), pkg("a", &format!("<ELEMENTS>{}</ELEMENTS>", isig("j", "/a/s")))))),
         ("ok_old".into(), doc("V401", &format!("<AR-PACKAGES>{}</AR-PACKAGES>", pkg("p", &format!("<ELEMENTS>{}</ELEMENTS>", sig("s")))))),
@@ -65,7 +75,13 @@ pub fn docs() -> Vec<(String, String)> {
         ("lexerr".into(), doc("V50", "<AR-PACKAGES><AR-PACKAGE><SHORT-NAME>a</SHORT-NAME></AR-PACKAGE><</AR-PACKAGES>")),
         ("parseerr".into(), doc("V50", "<AR-PACKAGES><AR-PACKAGE><SHORT-NAME>a</SHORT-NAME><BOGUS/></AR-PACKAGE></AR-PACKAGES>")),
         ("late_parseerr".into(), doc("V50", &format!("<AR-PACKAGES>{}<AR-PACKAGE><SHORT-NAME>1bad</SHORT-NAME></AR-PACKAGE></AR-PACKAGES>", pkg("b", "")))),
-    ]
+    ];
+    for (k, v) in own {
+        if !out.iter().any(|(n, _): &(String, String)| *n == k) {
+            out.push((k, v));
+        }
+    }
+    out
 }
 
 fn pick_node(w: &World, rng: &mut Rng) -> usize {
@@ -254,6 +270,7 @@ fn choose(w: &World, rng: &mut Rng, docs: &[(String, String)], loadno: &mut usiz
             a["name"] = json!(if rng.chance(10) { "f1".to_string() } else { format!("{name}_{loadno}") });
             let _ = text;
             a["doc"] = json!(name);
+            a["k"] = json!(name);
             a["strict"] = json!(if name == "foreign" { false } else { rng.chance(70) });
             a["p"] = json!(0);
         }
@@ -293,7 +310,9 @@ pub fn drive(out: &str, seed: u64, n: usize, len: usize, ser_every: usize) -> Va
             let mut a = act("Load");
             a["m"] = json!(1);
             a["name"] = json!("seed.arxml");
-            a["doc"] = json!(*rng.pick(&["ok_a", "ok_b"]));
+            let d = *rng.pick(&["ok_a", "ok_b", "pb", "pe"]);
+            a["doc"] = json!(d);
+            a["k"] = json!(d);
             a["strict"] = json!(true);
             if rng.chance(50) {
                 pre.remove(0);
